@@ -12,10 +12,10 @@ void harness(void)
     xv_my_ctx = xv_ctx_any(); xv_my_refs = nondet_int();   /* this thread holds >= 1 reference(s) on xv_my_ctx: invariant I4 lists it */
     __CPROVER_assume(xv_my_refs >= 1);
     xv_cs_enter();
-    long frees0 = xv_ctxfree_calls;
     cache_put(&cache, xv_my_ctx);
-    if (xv_acq.n == 1 && xv_ctxfree_calls == frees0) XV_CANARY("one entry, other users remain");
-    if (xv_acq.n == 1 && xv_ctxfree_calls != frees0) XV_CANARY("one entry, last user: cache becomes empty");
-    if (xv_acq.n == 2 && xv_ctxfree_calls != frees0 && cache.entries.lh_first == xv_acq.e[0]) XV_CANARY("two entries, second released");
-    if (xv_acq.n == 2 && xv_ctxfree_calls != frees0 && cache.entries.lh_first == xv_acq.e[1]) XV_CANARY("two entries, first released");
+    /* canary conditions use only what the critical section FOUND, not the outcome that is being decided */
+    if (xv_acq.n == 1 && xv_acq.cnt[0] > 1) XV_CANARY("one entry, other users remain");
+    if (xv_acq.n == 1 && xv_acq.cnt[0] == 1) XV_CANARY("one entry, last user: cache becomes empty");
+    if (xv_acq.n == 2 && xv_acq.ctx[1] == xv_my_ctx && xv_acq.cnt[1] == 1) XV_CANARY("two entries, second released");
+    if (xv_acq.n == 2 && xv_acq.ctx[0] == xv_my_ctx && xv_acq.cnt[0] == 1) XV_CANARY("two entries, first released");
 }
